@@ -258,7 +258,8 @@ def handle (st : DState) (j : Json) : Except String (DState × Json) := do
   | "prophyc_files_links" =>
     let strs := fun (x : Json) => do pure ((← x.getArr?).toList.mapM (·.getStr?))
     let entries ← (← getArr j "entries").toList.mapM (fun e => do
-      pure ({ path := ⟨← getStr e "dir", ← getStr e "leaf"⟩, target := ⟨← getStr e "tdir", ← getStr e "tleaf"⟩ } : FilesL.Entry))
+      pure ({ path := ⟨← getStr e "dir", ← getStr e "leaf"⟩, target := ⟨← getStr e "tdir", ← getStr e "tleaf"⟩,
+              ident := ⟨← getStr e "idir", ← getStr e "ileaf"⟩ } : FilesL.Entry))
     let files ← (← getArr j "files").toList.mapM (fun f => do
       pure ({ id := ⟨← getStr f "dir", ← getStr f "leaf"⟩,
               includes := ← (← strs (← f.getObjVal? "includes")),
